@@ -10,6 +10,7 @@ package main
 import (
 	"context"
 	"fmt"
+	"os"
 	"sort"
 	"strings"
 
@@ -20,6 +21,7 @@ import (
 	"diagonal.works/b6/ingest"
 	pb "diagonal.works/b6/proto"
 	"verif/kit"
+	"verif/racekit"
 	"verif/sched"
 	"verif/sched/vsync"
 	wk "verif/worldkit"
@@ -80,7 +82,7 @@ func newService() *svc {
 	}
 	base := sharedBase
 	worlds := &ingest.MutableWorlds{Base: base}
-	return &svc{s: b6grpc.NewB6Service(worlds, api.Options{Cores: 1}, &vsync.RWMutex{}), worlds: worlds}
+	return &svc{s: b6grpc.NewB6Service(worlds, api.Options{Cores: 1}, newLock()), worlds: worlds}
 }
 
 var parsed = map[string]*pb.NodeProto{}
@@ -404,10 +406,14 @@ func scenarios(tier string) []scenario {
 }
 
 func main() {
+	if os.Getenv("VERIF_RACE_BODY") != "" {
+		raceBodies()
+		return
+	}
 	kit.Main(&kit.Check{
 		ID: "C40", Level: "model_checking",
-		Rule: "scenario = multiset of 2 (thorough: also 3) client requests from a menu of read-only evaluate, unconditional change, changes computed from a read, change in another world, add-world-with-change, DeleteWorld, ListWorlds and a failing change; per scenario every interleaving of the client goroutines at the service's lock points; oracle: (responses, final worlds) equals the outcome of some serial order, computed by running every permutation on a fresh service. Non-trivial = at least one scheduling choice; distinct = happens-before keys.",
-		Assumptions: []string{"code between two lock operations runs atomically (the separate race pass covers unsynchronised accesses)", "one request per client"},
+		Rule:          "scenario = multiset of 2 (thorough: also 3) client requests from a menu of read-only evaluate, unconditional change, changes computed from a read, change in another world, add-world-with-change, DeleteWorld, ListWorlds and a failing change; per scenario every interleaving of the client goroutines at the service's lock points; oracle: (responses, final worlds) equals the outcome of some serial order, computed by running every permutation on a fresh service. Non-trivial = at least one scheduling choice; distinct = happens-before keys.",
+		Assumptions:   []string{"code between two lock operations runs atomically (the separate race pass covers unsynchronised accesses)", "one request per client"},
 		QuickDeadline: 200e9, ThoroughDeadline: 1500e9, CaseTimeout: 400e9, Chunk: 1, WorkerEnv: []string{"GOMAXPROCS=1"},
 		Build: func(tier string) (kit.Space, string) {
 			sc := scenarios(tier)
@@ -415,9 +421,18 @@ func main() {
 			if tier == "thorough" {
 				bound, maxExec = 3, 300000
 			}
-			return kit.FuncSpace{N: int64(len(sc)), F: func(i int64) kit.Result {
-				s := sc[i]
+			return kit.FuncSpace{N: int64(len(sc)) + 1, F: func(i int64) kit.Result {
 				var r kit.Result
+				if i == int64(len(sc)) {
+					// auxiliary: the same bodies free-running under the race detector
+					iters := "10"
+					if tier == "thorough" {
+						iters = "200"
+					}
+					racekit.Pass(&r, "c40", "./checks/c40", "racepass", nil, []string{"VERIF_RACE_BODY=" + iters})
+					return r
+				}
+				s := sc[i]
 				newService() // builds the shared base natively
 				serial := s.serial()
 				res := sched.Explore(s.body(), s.check(serial), sched.Options{MaxPreemptions: bound, MaxExecutions: maxExec})
@@ -462,7 +477,7 @@ func main() {
 					r.Sample = map[string]interface{}{"scenario": s.String(), "executions": res.Executions, "states": res.States, "unbounded": res.Unbounded, "serial_outcomes": len(serial), "outcomes": res.Outcomes}
 				}
 				return r
-			}}, fmt.Sprintf("%d scenarios; preemption bound %d (unbounded where no alternative was cut); execution cap %d per scenario", len(sc), bound, maxExec)
+			}}, fmt.Sprintf("%d scenarios; preemption bound %d (unbounded where no alternative was cut); execution cap %d per scenario; + 1 auxiliary free-running race-detector pass over the same scenario bodies (un-rewritten tree)", len(sc), bound, maxExec)
 		},
 	})
 }
